@@ -266,6 +266,7 @@ def harness(cfg, ns, schedule_factory=None):
         ns.np.std_calls = []
         # concrete reference (the staleness at stake is structural; two symbolic samplings multiply the paths), symbolic draws
         c, info = common.build_continuum(ns, ctx, (1, 1, 1), coords="fixed", labels=["x", "y", "x"])
+        c.add_annotator(common.ANN[3])          # an annotator who is part of the continuum (and of the ground truth) without any unit
         c.tag = "input"
         rng.max_draws = 16
 
@@ -298,7 +299,7 @@ def harness(cfg, ns, schedule_factory=None):
                 delta_empty = 1
             d = D()
             smp.init_sampling(c)            # an earlier use of the sampler on the same continuum object, all annotators
-            gt = [common.ANN[0], common.ANN[2]]
+            gt = [common.ANN[0], common.ANN[2], common.ANN[3]]      # not a prefix of the annotators; its last member made no annotation
             r2 = c.compute_gamma(d, n_samples=1, sampler=smp, ground_truth_annotators=gt)
         finally:
             undo()
@@ -307,7 +308,7 @@ def harness(cfg, ns, schedule_factory=None):
             return [Obl("re-used sampler: samples come from the new ground truth", list(s2.annotators) == gt, rz)]
         # the ground truth {a0, a2} is not a prefix of the annotators; its units are labelled 'x', the left-out annotator's 'y'
         gt_labels = {info[(a, 0)]["label"] for a in (0, 2)}
-        return [Obl("re-used sampler: as many sampled annotators as ground-truth annotators", len(s2.annotators) == 2, rz),
+        return [Obl("re-used sampler: as many sampled annotators as ground-truth annotators", len(s2.annotators) == len(gt), rz),
                 Obl("re-used sampler: uses the new ground truth", list(smp._ground_truth_annotators) == gt, rz),
                 Obl("shuffle sampler: every sampled annotator copies a ground-truth annotator (labels of the left-out annotator never appear)",
                     all(u.annotation in gt_labels for _, u in s2), rz)]
@@ -360,18 +361,18 @@ def replay(case):
     F = lambda x: float(Fraction(x))     # noqa: E731
     if case["kind"] == "reuse":
         from pygamma_agreement.sampler import StatisticalContinuumSampler, ShuffleContinuumSampler
-        c = common.real_continuum(dict(units=case["units"], annotators=common.ANN[:3]))
+        c = common.real_continuum(dict(units=case["units"], annotators=common.ANN[:4]))
         smp = StatisticalContinuumSampler() if case["sampler"] == "statistical" else ShuffleContinuumSampler()
         d = pa.CombinedCategoricalDissimilarity()
         np.random.seed(5)
         smp.init_sampling(c)
-        gt = [common.ANN[0], common.ANN[2]]
+        gt = [common.ANN[0], common.ANN[2], common.ANN[3]]
         r2 = c.compute_gamma(d, n_samples=12, sampler=smp, ground_truth_annotators=gt)
         bad = []
         gt_labels = {u.annotation for a, u in c if a in gt}
         for A in r2.chance_alignments:
             anns = list(A.continuum.annotators)
-            if (case["sampler"] == "statistical" and anns != gt) or len(anns) != 2:
+            if (case["sampler"] == "statistical" and anns != gt) or len(anns) != len(gt):
                 bad.append(f"chance continuum annotators {anns} for ground truth {gt}")
             if case["sampler"] != "statistical" and any(u.annotation not in gt_labels for _, u in A.continuum):
                 bad.append(f"a chance continuum holds units of an annotator outside the ground truth {gt}: labels {sorted({str(u.annotation) for _, u in A.continuum})}")
@@ -433,7 +434,10 @@ def replay(case):
     p = F(prec) if isinstance(prec, str) and "/" in prec else prec
     window = 2 if mode == "fast-2" else np.inf
 
+    measured = []
+
     def mbws(self, d):
+        measured.append(self)
         self.best_window_size = window
     std_it = iter(stds)
     real_std = np.std
@@ -457,6 +461,11 @@ def replay(case):
         except Exception as ex:     # noqa: BLE001
             return dict(reproduced=True, detail="compute_gamma raised " + repr(ex)[:300])
         want_kind = {"exact": "best", "soft": "soft", "fast-inf": "best", "fast-2": "fast"}[mode]
+        if mode.startswith("fast"):
+            if len(measured) != 1 or measured[0] is not c:
+                bad.append(f"fast mode: the window size was measured {len(measured)} time(s), on {[getattr(x, 'tag', None) for x in measured]} (once, on the input, is what the samples inherit)")
+        elif measured:
+            bad.append("the window size was measured outside fast mode")
         B = res.best_alignment
         if B.of is not c or B.kind != want_kind:
             bad.append(f"observed alignment is {B.kind} of {getattr(B.of, 'tag', None)}")
